@@ -153,7 +153,10 @@ fn build(w: &mut World, d: &Value) -> Built {
     let mk_proof = |w: &World, content: XorName, p: Pay| proof(&me, &w.near, &w.far, &w.forger, content, p);
     let (value, derived): (Vec<u8>, RecordKey) = match kind {
         "Chunk" | "ChunkWithPayment" => {
-            let c = chunk_of(slot * 10 + uz(&d["variant"]));
+            // "collide": the chunk whose bytes are the slot owner's public key shares its address with the owner's
+            // scratchpad and transactions
+            let c = if d["collide"] == json!(true) { ant_protocol::storage::Chunk::new(bytes::Bytes::from(owner.public_key().to_bytes().to_vec())) }
+                    else { chunk_of(slot * 10 + uz(&d["variant"])) };
             let derived = NetworkAddress::from_chunk_address(*c.address()).to_record_key();
             let v = if kind == "Chunk" { ser(&c, RecordKind::Chunk) } else {
                 let p = pay.unwrap_or(Pay::all_ok());
